@@ -230,6 +230,9 @@ def rule_coverage(program, ctx):
     for f in FIELDS:
         from ..lib import expand_aliases
         tests = [n for n in ast.walk(scope) if isinstance(n, ast.If) and any(isinstance(a, ast.Attribute) and a.attr == f and dotted(a.value) == qv for a in ast.walk(expand_aliases(fn, n.test)))]
+        if not tests and f not in GE0:
+            # iterating the member is a presence test as well (`for name, values in query.tags or ():` runs zero times for None / [])
+            tests = [n for n in ast.walk(scope) if isinstance(n, ast.For) and any(isinstance(a, ast.Attribute) and a.attr == f and dotted(a.value) == qv for a in ast.walk(expand_aliases(fn, n.iter)))]
         if not tests:
             ctx.bad(finding_func(P, rid, fn, f"the live matcher ignores the filter's `{f}`: events that the stored query would not return are pushed live", text=f"def check_event(...) :: {f}"))
             continue
